@@ -67,7 +67,7 @@ func runDirect(c *core.Ctx) {
 	c.Assumef("a difference between a real function and the implementation-shaped model that the reference property accepts is MODEL-DRIFT (reported, exit 0), DESIGN 1.2")
 	rng := rand.New(rand.NewSource(c.Seed))
 	p := directParams{
-		SMax: c.Pick(4, 5), SFull: c.Pick(4, 5), SCore: []int{1, 2, 4, 5, 6, 7, 9, 10, 13, 16, 18, 19}, SOut: "scan",
+		SMax: c.Pick(4, 5), SFull: c.Pick(4, 5), SCore: []int{1, 2, 4, 5, 6, 7, 9, 10, 13, 16, 18, 19, 20}, SOut: "scan",
 		Free: []bool{true, false}, AMaxMin: c.Pick(6, 8), AMaxPlain: c.Pick(5, 6), MaxScopes: 3, Seeded: true,
 		GoNames: []string{"x", "in"}, Scripts: longScripts(rng, c.Thorough()), AOut: "alloc.ndjson", MaxIdx: 1000,
 	}
@@ -99,7 +99,7 @@ func runDirect(c *core.Ctx) {
 	c.Set("direct_checker_cmd", "tlc Minify SpecScan (INVARIANT TokensPreserved EndsInCode EmitScan); tlc Minify SpecAlloc (INVARIANT NeverReserved NoCapture AlphabetsDisjoint EmitAlloc)")
 	c.Set("direct_exhaustive", p.SFull >= p.SMax)
 	c.Set("direct_rule", fmt.Sprintf("scanner: every sequence of <= %d items over the %d-item alphabet of Minify.tla (sequences longer than %d over a %d-item core alphabet) + one of 4 chunk endings by rotation; distinct non-trivial = generator-shaped cases holding at least one white-space, comment or hint item. allocator: every history of exactly %d (minified) / %d (not minified, Go names %v) create/alloc-local/alloc-package-level actions over <= %d scopes in every interleaving, plus %d long runs of >= 800 allocations from VERIF_SEED; every history is distinct non-trivial. An evaluation = one case or history replayed on the real function and compared",
-		p.SMax, 19, p.SFull, len(p.SCore), p.AMaxMin, p.AMaxPlain, p.GoNames, p.MaxScopes, len(p.Scripts)))
+		p.SMax, 20, p.SFull, len(p.SCore), p.AMaxMin, p.AMaxPlain, p.GoNames, p.MaxScopes, len(p.Scripts)))
 	runScanner(c, rs.Dir, rng)
 	c.Phase("direct_scanner")
 	runAllocator(c, ra.Dir, p, rng)
